@@ -8,6 +8,19 @@ pub struct Counting;
 pub static LIVE_BYTES: AtomicI64 = AtomicI64::new(0);
 pub static LIVE_BLOCKS: AtomicI64 = AtomicI64::new(0);
 pub static TOTAL_ALLOCS: AtomicU64 = AtomicU64::new(0);
+/// live blocks per size (bytes, up to 511; larger ones in the last bucket) - diagnostics for growth reports
+#[allow(clippy::declare_interior_mutable_const)]
+const ZI: AtomicI64 = AtomicI64::new(0);
+pub static BY_SIZE: [AtomicI64; 512] = [ZI; 512];
+
+#[inline]
+fn bucket(sz: usize) -> usize {
+    sz.min(511)
+}
+
+pub fn size_histogram() -> Vec<i64> {
+    BY_SIZE.iter().map(|a| a.load(Relaxed)).collect()
+}
 
 unsafe impl GlobalAlloc for Counting {
     unsafe fn alloc(&self, l: Layout) -> *mut u8 {
@@ -16,12 +29,14 @@ unsafe impl GlobalAlloc for Counting {
             LIVE_BYTES.fetch_add(l.size() as i64, Relaxed);
             LIVE_BLOCKS.fetch_add(1, Relaxed);
             TOTAL_ALLOCS.fetch_add(1, Relaxed);
+            BY_SIZE[bucket(l.size())].fetch_add(1, Relaxed);
         }
         p
     }
     unsafe fn dealloc(&self, p: *mut u8, l: Layout) {
         LIVE_BYTES.fetch_sub(l.size() as i64, Relaxed);
         LIVE_BLOCKS.fetch_sub(1, Relaxed);
+        BY_SIZE[bucket(l.size())].fetch_sub(1, Relaxed);
         System.dealloc(p, l)
     }
     unsafe fn alloc_zeroed(&self, l: Layout) -> *mut u8 {
@@ -30,6 +45,7 @@ unsafe impl GlobalAlloc for Counting {
             LIVE_BYTES.fetch_add(l.size() as i64, Relaxed);
             LIVE_BLOCKS.fetch_add(1, Relaxed);
             TOTAL_ALLOCS.fetch_add(1, Relaxed);
+            BY_SIZE[bucket(l.size())].fetch_add(1, Relaxed);
         }
         p
     }
@@ -37,6 +53,8 @@ unsafe impl GlobalAlloc for Counting {
         let q = System.realloc(p, l, new_size);
         if !q.is_null() {
             LIVE_BYTES.fetch_add(new_size as i64 - l.size() as i64, Relaxed);
+            BY_SIZE[bucket(l.size())].fetch_sub(1, Relaxed);
+            BY_SIZE[bucket(new_size)].fetch_add(1, Relaxed);
         }
         q
     }
